@@ -40,6 +40,8 @@ SCHEMA_QUERIES = [
     "SELECT x.a FROM x LEFT JOIN y ON x.b = y.b WHERE y.c IS NULL",
     "SELECT a FROM x WHERE a = (SELECT MAX(a) FROM z)",
     "SELECT -a, a * (b + 2) / 3, a % 2, NOT a > b FROM x",
+    "SELECT x.a + x.b + y.c + z.c AS s, x.a * y.b AS p FROM x JOIN y ON x.b = y.b JOIN z ON z.a = x.a",
+    "SELECT COALESCE(x.a, x.b, y.b, y.c) AS k, CASE WHEN x.a > y.c THEN x.b ELSE y.b END AS m FROM x JOIN y ON x.b = y.b",
     "SELECT * FROM mixed",
     "SELECT m.*, x.a FROM mixed AS m JOIN x ON x.a = m.foo",
     "SELECT foo, Bar, BAZ FROM mixed WHERE Bar > 1",
@@ -74,6 +76,11 @@ GENERAL = [
     ("bigquery", "SELECT * FROM UNNEST([1, 2]) AS x"),
     ("bigquery", "SELECT SAFE_CAST(a AS INT64), `p.d.t`.c, ARRAY<STRUCT<a INT64>>[STRUCT(1)] FROM `p.d.t`"),
     ("bigquery", "FROM x |> WHERE a > 1 |> SELECT a, b |> AGGREGATE SUM(b) AS s GROUP BY a"),
+    ("bigquery", "SELECT * FROM (SELECT 1 AS alpha, 2 AS beta, 3 AS gamma, 4 AS delta INNER UNION ALL BY NAME SELECT 3 AS gamma, 2 AS beta, 1 AS alpha, 4 AS delta) AS t"),
+    ("bigquery", "SELECT 1 AS a, 2 AS b, 3 AS c FULL UNION ALL BY NAME SELECT 4 AS c, 5 AS d, 6 AS a"),
+    ("duckdb", "SELECT 1 AS a, 2 AS b UNION ALL BY NAME SELECT 3 AS b, 4 AS c"),
+    (None, "SELECT * FROM a NATURAL JOIN b JOIN c USING (k1, k2, k3)"),
+    (None, "SELECT t.*, u.* EXCEPT (k) FROM t JOIN u ON t.k = u.k"),
     ("clickhouse", "SELECT toDate(x), arrayJoin(y), z FROM t FINAL PREWHERE a = 1"),
     ("oracle", "SELECT NVL(a, b), SYSDATE FROM dual WHERE ROWNUM < 3"),
     ("presto", "SELECT APPROX_DISTINCT(a), ELEMENT_AT(m, 'k'), TRY_CAST(b AS BIGINT) FROM t"),
